@@ -15,15 +15,16 @@ import (
 
 // propDef: which functions a property's check verifies.
 type propDef struct {
-	ID          string   `json:"id"`
-	Sweep       []string `json:"sweep"`        // regexps over display keys: zero-annotation safety sweep (C08-style)
-	SweepExcept []string `json:"sweep_except"` // regexps excluded from the sweep
-	Special     []string `json:"special"`      // special analyses: "next-skeleton", "effects", "frames"
-	SweepList   string   `json:"sweep_list"`   // file (relative to /verif) listing the functions of the pinned sweep
-	Frames      bool     `json:"frames"`       // the sweep is the write-frame sweep (C05/C06), not the safety sweep
-	ScopeFiles  []string `json:"scope_files"`  // source files whose functions are in scope (for not_under_contract)
-	MinObligs   int      `json:"min_obligations"`
-	Note        string   `json:"note"`
+	ID            string   `json:"id"`
+	Sweep         []string `json:"sweep"`          // regexps over display keys: zero-annotation safety sweep (C08-style)
+	SweepExcept   []string `json:"sweep_except"`   // regexps excluded from the sweep
+	Special       []string `json:"special"`        // special analyses: "next-skeleton", "effects", "frames"
+	SweepList     string   `json:"sweep_list"`     // file (relative to /verif) listing the functions of the pinned sweep
+	Frames        bool     `json:"frames"`         // the sweep is the write-frame sweep (C05/C06), not the safety sweep
+	ScopeFiles    []string `json:"scope_files"`    // source files whose functions are in scope (for not_under_contract)
+	KnownUnlisted string   `json:"known_unlisted"` // file listing the in-scope functions that were outside the sweep list when it was pinned
+	MinObligs     int      `json:"min_obligations"`
+	Note          string   `json:"note"`
 }
 
 type knownFinding struct {
@@ -210,6 +211,29 @@ func cmdCheck(args []string) int {
 				rep.notUnder = append(rep.notUnder, k)
 			}
 		}
+		// functions that appeared in the scope files after the sweep list was pinned are not checked:
+		// say so on every run (their undischarged obligations could not be told from missing
+		// preconditions, so they are not alarms)
+		if pd.KnownUnlisted != "" && onlyRe == nil {
+			path := filepath.Join(verif, pd.KnownUnlisted)
+			if os.Getenv("GOVC_WRITE_UNLISTED") != "" {
+				os.WriteFile(path, []byte(strings.Join(rep.notUnder, "\n")+"\n"), 0o644)
+			}
+			known := map[string]bool{}
+			if data, err := os.ReadFile(path); err == nil {
+				for _, ln := range strings.Split(string(data), "\n") {
+					if ln = strings.TrimSpace(ln); ln != "" {
+						known[ln] = true
+					}
+				}
+				for _, k := range rep.notUnder {
+					if !known[k] {
+						fmt.Printf("NOTE property=%s new function %s (%s) is not in the pinned sweep list: it is not checked by this sweep\n", id, k, e.relFile(e.funcs[k]))
+						rep.newFuncs = append(rep.newFuncs, k)
+					}
+				}
+			}
+		}
 	}
 	// contracts tagged with this property whose function no longer exists: undecided
 	for full, con := range e.specs.Contracts {
@@ -362,6 +386,7 @@ type report struct {
 	engineErr    []string
 	selftest     map[string]any
 	notUnder     []string
+	newFuncs     []string // in-scope functions that are neither swept nor in the known-unlisted file
 	structFail   bool
 	onlyMode     bool
 }
@@ -558,6 +583,7 @@ func (r *report) writeEvidence() error {
 		"notes":                         r.extraNotes,
 		"violating_obligations":         r.violations,
 		"not_under_contract":            r.notUnder,
+		"new_functions_not_checked":     r.newFuncs,
 		"engine_errors":                 r.engineErr,
 	}
 	if r.selftest != nil {
@@ -623,6 +649,8 @@ func (r *report) runSpecial(name string) {
 	switch name {
 	case "next-skeleton":
 		r.nextSkeleton()
+	case "ambient-authority":
+		r.ambientAuthority()
 	case "globals-write":
 		r.globalsWrite()
 		r.compiledStateWrites()
